@@ -114,6 +114,30 @@ def job_random(job):
     return drivers.make_trace(directed, removal, calls, labeling=lab, forks=forks, rng=rng)
 
 
+def repo_test_traces(chk):
+    """code -> spec on realistic usage: the repository's own tests run under the tracer plugin
+    (harness/tracer_plugin.py, DYNETX_VERIF=1); every graph they build becomes one trace"""
+    import json
+    import subprocess
+    import sys
+    out = os.path.join(OUT, "tmp", "repo_traces_%s_%d.json" % (chk.prop, os.getpid()))
+    os.makedirs(os.path.dirname(out), exist_ok=True)
+    env = dict(os.environ, DYNETX_VERIF="1", DYNETX_VERIF_TRACES=out, PYTHONPATH=tlc.VERIF, DYNETX_ROOT=core.ROOT,
+               PYTHONDONTWRITEBYTECODE="1")
+    p = subprocess.run([sys.executable, "-m", "pytest", "-q", "-x", "-p", "no:cacheprovider", "-p", "harness.tracer_plugin",
+                        "dynetx/test"], cwd=core.ROOT, env=env, stdout=subprocess.PIPE, stderr=subprocess.STDOUT, text=True)
+    chk.extra["repo_tests_under_tracer"] = p.stdout.strip().splitlines()[-1] if p.stdout.strip() else "no output"
+    if not os.path.exists(out):
+        chk.extra["repo_test_traces"] = 0
+        return
+    with open(out) as f:
+        traces = json.load(f)
+    os.remove(out)
+    chk.extra["repo_test_traces"] = len(traces)
+    verdicts = tlc.validate(traces, "%s-repotests" % chk.prop)
+    chk.judge(traces, verdicts)
+
+
 def run(prop, tier, seed):
     chk = Check(prop, tier, seed)
     rng = random.Random(seed)
@@ -154,6 +178,7 @@ def run(prop, tier, seed):
         jobs.append((rng.randrange(1 << 30), directed, removal, nn, tmax, rng.randint(2, 25 if tier == "quick" else 40),
                      rng.choice(LABS)))
     chk.run_jobs(job_random, jobs, "rand", chunk=1500)
+    repo_test_traces(chk)
     chk.extra["bounded_states_replayed"] = n_states
     chk.extra["state_action_pairs_replayed"] = n_edges
     chk.assumptions = [
@@ -164,7 +189,8 @@ def run(prop, tier, seed):
     ]
     rule = ("every reachable abstract state of the TLC configuration(s) %s is rebuilt on the real class from its "
             "witness history and %s calls of the model's alphabet are applied to deep copies of it; plus %d seeded "
-            "random histories (2-10 nodes, instants up to 40, 7 node/time labelings). A case is a (raw observation "
+            "random histories (2-10 nodes, instants up to 40, 7 node/time labelings); plus one trace per graph built by the "
+            "repository's own tests, recorded by the tracer plugin. A case is a (raw observation "
             "before the call, call) pair; it is non-trivial unless it is a rejected call on the empty graph; "
             "distinct = distinct digests of (observation, call)."
             % (",".join(CFGS[tier]), "all" if tier == "thorough" else "14 sampled", nrand))
